@@ -27,6 +27,7 @@ import (
 	"sort"
 	"strconv"
 	"strings"
+	"sync"
 
 	"go.flow.arcalot.io/pluginsdk/schema"
 	"verif/harness/sup"
@@ -67,7 +68,8 @@ type ast struct {
 	ID           string   `json:"id,omitempty"`
 	Props        []prop   `json:"props,omitempty"`
 	IDUnenforced bool     `json:"id_unenforced,omitempty"`
-	Impl         string   `json:"impl,omitempty"` // object: plain (default) | mapped | typed
+	Impl         string   `json:"impl,omitempty"`  // object: plain (default) | mapped | typed; list, map: plain | typed
+	Units        string   `json:"units,omitempty"` // int, float: none (default) | bytes | time | custom
 	Root         string   `json:"root,omitempty"`
 	Objects      []*ast   `json:"objects,omitempty"`
 	Disc         string   `json:"disc,omitempty"`
@@ -91,16 +93,17 @@ func (a *ast) MarshalJSON() ([]byte, error) {
 	switch a.Kind {
 	case "int", "float", "string":
 		bounds()
+		m["units"] = a.units()
 	case "enum_int", "enum_string":
 		vs := append([]int64{}, a.Values...)
 		sort.Slice(vs, func(i, j int) bool { return vs[i] < vs[j] })
 		m["values"], m["named"] = vs, a.Named
 	case "list":
 		bounds()
-		m["items"] = a.Items
+		m["items"], m["impl"] = a.Items, a.impl()
 	case "map":
 		bounds()
-		m["keys"], m["vals"] = a.Keys, a.Vals
+		m["keys"], m["vals"], m["impl"] = a.Keys, a.Vals, a.impl()
 	case "object":
 		ps := append([]prop{}, a.Props...)
 		sort.Slice(ps, func(i, j int) bool { return ps[i].Name < ps[j].Name })
@@ -123,6 +126,7 @@ type caseT struct {
 	A     *ast     `json:"a"`
 	B     *ast     `json:"b"`
 	Mode  string   `json:"mode"`
+	Hist  string   `json:"hist,omitempty"` // none (default) | a | b: that side parsed unit-suffixed strings first
 	Exp   string   `json:"exp,omitempty"`
 	Rules []string `json:"rules,omitempty"`
 	How   string   `json:"how,omitempty"`
@@ -156,6 +160,156 @@ var typeIDs = map[string]schema.TypeID{
 type bindErr string
 
 func (b bindErr) Error() string { return string(b) }
+
+func (a *ast) units() string {
+	if a.Units == "" {
+		return "none"
+	}
+	return a.Units
+}
+
+// ---- units.  A unit set fills private caches when it first parses a unit-suffixed string.
+
+// unitLeaf: a built int / float with units and a text its unit set parses
+type unitLeaf struct {
+	t    schema.Type
+	def  *schema.UnitsDefinition
+	text string
+}
+
+// collector of the side being built (children of sup handle their cases one after the other)
+var unitLeaves *[]unitLeaf
+
+func customUnits() *schema.UnitsDefinition {
+	return schema.NewUnits(
+		schema.NewUnit("t", "t", "tick", "ticks"),
+		map[int64]*schema.UnitDefinition{
+			10:   schema.NewUnit("dt", "dt", "decatick", "decaticks"),
+			1000: schema.NewUnit("kt", "kt", "kilotick", "kiloticks"),
+		})
+}
+
+// unitsFor: the unit set of the binding table and a text it parses
+func unitsFor(kind, units string) (*schema.UnitsDefinition, string, error) {
+	switch units {
+	case "none":
+		return nil, "", nil
+	case "bytes":
+		return schema.UnitBytes, "5kB", nil
+	case "time":
+		if kind == "float" {
+			return schema.UnitDurationSeconds, "2m", nil
+		}
+		return schema.UnitDurationNanoseconds, "5ms", nil
+	case "custom":
+		return customUnits(), "5kt", nil
+	}
+	return nil, "", fmt.Errorf("unknown unit set %q", units)
+}
+
+// useUnits: the schema reads the text (the value may violate its bounds - the unit set has parsed it by
+// then); that the unit set does parse the text is checked on the set itself
+func useUnits(l unitLeaf) error {
+	var err error
+	if pi := sup.Guard(func() {
+		_, _ = l.t.Unserialize(l.text)
+		_, err = l.def.ParseFloat(l.text)
+	}); pi != nil {
+		return fmt.Errorf("parsing %q panicked: %s @%s", l.text, pi.Msg, pi.Frame)
+	}
+	if err != nil {
+		return fmt.Errorf("the unit set does not parse %q: %v", l.text, err)
+	}
+	return nil
+}
+
+// usePackageUnits: an unrelated schema parses with every package-level unit set the universe names; from
+// then on these sets are in the "used" state for the whole process, whatever cases the child ran before.
+var packageUnitsOnce sync.Once
+var packageUnitsErr error
+
+func usePackageUnits() error {
+	packageUnitsOnce.Do(func() {
+		for _, k := range []string{"int", "float"} {
+			for _, u := range []string{"bytes", "time"} {
+				def, text, _ := unitsFor(k, u)
+				var t schema.Type = schema.NewIntSchema(nil, nil, def)
+				if k == "float" {
+					t = schema.NewFloatSchema(nil, nil, def)
+				}
+				if err := useUnits(unitLeaf{t, def, text}); err != nil && packageUnitsErr == nil {
+					packageUnitsErr = err
+				}
+			}
+		}
+	})
+	return packageUnitsErr
+}
+
+func scalarWithUnits(a *ast) (schema.Type, error) {
+	def, text, err := unitsFor(a.Kind, a.units())
+	if err != nil {
+		return nil, err
+	}
+	var t schema.Type
+	if a.Kind == "int" {
+		is := schema.NewIntSchema(ip(a.Min), ip(a.Max), def)
+		if (is.Units() != nil) != (def != nil) {
+			return nil, bindErr("int schema built with units does not report them")
+		}
+		t = is
+	} else {
+		fs := schema.NewFloatSchema(fp(a.Min), fp(a.Max), def)
+		if (fs.Units() != nil) != (def != nil) {
+			return nil, bindErr("float schema built with units does not report them")
+		}
+		t = fs
+	}
+	if def != nil && unitLeaves != nil {
+		*unitLeaves = append(*unitLeaves, unitLeaf{t, def, text})
+	}
+	return t, nil
+}
+
+// ---- typed lists and maps over scalar element types
+
+func typedList(a *ast, it schema.Type) (schema.Type, error) {
+	switch a.Items.Kind {
+	case "int":
+		return schema.NewTypedListSchema[int64](it.(schema.TypedType[int64]), ip(a.Min), ip(a.Max)), nil
+	case "float":
+		return schema.NewTypedListSchema[float64](it.(schema.TypedType[float64]), ip(a.Min), ip(a.Max)), nil
+	case "string":
+		return schema.NewTypedListSchema[string](it.(schema.TypedType[string]), ip(a.Min), ip(a.Max)), nil
+	case "bool":
+		return schema.NewTypedListSchema[bool](it.(schema.TypedType[bool]), ip(a.Min), ip(a.Max)), nil
+	}
+	return nil, fmt.Errorf("typed list of %s (not well-formed: scalar items only)", a.Items.Kind)
+}
+
+func typedMapK[K comparable](a *ast, k schema.TypedType[K], v schema.Type) (schema.Type, error) {
+	switch a.Vals.Kind {
+	case "int":
+		return schema.NewTypedMapSchema[K, int64](k, v.(schema.TypedType[int64]), ip(a.Min), ip(a.Max)), nil
+	case "float":
+		return schema.NewTypedMapSchema[K, float64](k, v.(schema.TypedType[float64]), ip(a.Min), ip(a.Max)), nil
+	case "string":
+		return schema.NewTypedMapSchema[K, string](k, v.(schema.TypedType[string]), ip(a.Min), ip(a.Max)), nil
+	case "bool":
+		return schema.NewTypedMapSchema[K, bool](k, v.(schema.TypedType[bool]), ip(a.Min), ip(a.Max)), nil
+	}
+	return nil, fmt.Errorf("typed map with %s values (not well-formed: scalar values only)", a.Vals.Kind)
+}
+
+func typedMap(a *ast, k, v schema.Type) (schema.Type, error) {
+	switch a.Keys.Kind {
+	case "int":
+		return typedMapK[int64](a, k.(schema.TypedType[int64]), v)
+	case "string":
+		return typedMapK[string](a, k.(schema.TypedType[string]), v)
+	}
+	return nil, fmt.Errorf("typed map with %s keys (not well-formed: int or string keys only)", a.Keys.Kind)
+}
 
 func (a *ast) impl() string {
 	if a.Impl == "" {
@@ -235,11 +389,12 @@ func build1(a *ast) (schema.Type, error) {
 		return nil, fmt.Errorf("missing schema node")
 	}
 	switch a.Kind {
-	case "int":
-		return schema.NewIntSchema(ip(a.Min), ip(a.Max), nil), nil
-	case "float":
-		return schema.NewFloatSchema(fp(a.Min), fp(a.Max), nil), nil
+	case "int", "float":
+		return scalarWithUnits(a)
 	case "string":
+		if a.units() != "none" {
+			return nil, fmt.Errorf("string with units (not well-formed)")
+		}
 		return schema.NewStringSchema(ip(a.Min), ip(a.Max), nil), nil
 	case "bool":
 		return schema.NewBoolSchema(), nil
@@ -264,6 +419,9 @@ func build1(a *ast) (schema.Type, error) {
 		if err != nil {
 			return nil, err
 		}
+		if a.impl() == "typed" {
+			return typedList(a, it)
+		}
 		return schema.NewListSchema(it, ip(a.Min), ip(a.Max)), nil
 	case "map":
 		k, err := build(a.Keys)
@@ -273,6 +431,9 @@ func build1(a *ast) (schema.Type, error) {
 		v, err := build(a.Vals)
 		if err != nil {
 			return nil, err
+		}
+		if a.impl() == "typed" {
+			return typedMap(a, k, v)
 		}
 		return schema.NewMapSchema(k, v, ip(a.Min), ip(a.Max)), nil
 	case "object":
@@ -516,9 +677,16 @@ func handle(raw json.RawMessage) any {
 		return map[string]any{"harness_error": err.Error()}
 	}
 	r := &resT{}
+	if err := usePackageUnits(); err != nil {
+		r.HarnessErr = "package-level unit sets: " + err.Error()
+		return r
+	}
 	var A, B schema.Type
 	var berr error
+	var leavesA, leavesB []unitLeaf
 	pi := sup.Guard(func() {
+		defer func() { unitLeaves = nil }()
+		unitLeaves = &leavesA
 		A, berr = build(c.A)
 		if berr != nil {
 			return
@@ -527,6 +695,7 @@ func handle(raw json.RawMessage) any {
 			B = A
 			return
 		}
+		unitLeaves = &leavesB
 		B, berr = build(c.B)
 	})
 	if pi != nil {
@@ -540,6 +709,24 @@ func handle(raw json.RawMessage) any {
 			r.HarnessErr = berr.Error()
 		}
 		return r
+	}
+	// the history: the directly built side parses unit-suffixed strings before anything else
+	var used []unitLeaf
+	switch c.Hist {
+	case "", "none":
+	case "a":
+		used = leavesA
+	case "b":
+		used = leavesB
+	default:
+		r.HarnessErr = "unknown history " + c.Hist
+		return r
+	}
+	for _, l := range used {
+		if err := useUnits(l); err != nil {
+			r.HarnessErr = err.Error()
+			return r
+		}
 	}
 	switch c.Mode {
 	case "rb":
